@@ -1,5 +1,5 @@
 use super::Graph;
-use crate::{ext::vec::VecExt, Edge, Error, ErrorKind, Node, AdjacentNode};
+use crate::{AdjacentNode, Edge, Error, ErrorKind, Node};
 use itertools::Itertools;
 use std::collections::{HashMap, HashSet};
 use std::fmt::Display;
@@ -34,20 +34,21 @@ where
     {
         let mut seen = HashSet::new();
         let mut return_vec = vec![];
-        let mut next_level = vec![node_name.clone()].to_hashset();
+        // the levels are kept in the (per-graph deterministic) order in which the adjacency
+        // queries list the nodes; a freshly keyed HashSet would order them differently on every call
+        let mut next_level = vec![node_name.clone()];
         while !next_level.is_empty() {
             let this_level = next_level;
-            next_level = HashSet::new();
+            next_level = vec![];
             for v in this_level {
                 if !seen.contains(&v) {
                     seen.insert(v.clone());
                     return_vec.push(v.clone());
-                    let next: HashSet<T> = self
-                        .get_successors_or_neighbors(v)
-                        .into_iter()
-                        .map(|n| n.name.clone())
-                        .collect();
-                    next_level = next_level.union(&next).cloned().collect();
+                    next_level.extend(
+                        self.get_successors_or_neighbors(v)
+                            .into_iter()
+                            .map(|n| n.name.clone()),
+                    );
                 }
             }
         }
